@@ -63,6 +63,7 @@
 #include "abti.h"
 #include "vh_common.h"
 #include <pthread.h>
+#include <signal.h>
 #include <time.h>
 #include <unistd.h>
 #include <sched.h>
@@ -1105,12 +1106,25 @@ static void do_rc(char *line)
     ABT_mutex_free(&g_mutex);
 }
 
+/* watchdog: a case whose driver spins (a lock that is never released) would otherwise run until the check's timeout */
+static char vh_cur_case[256];
+static void vh_on_alarm(int sig)
+{
+    static const char m1[] = "harness watchdog: case did not finish (hang): ";
+    (void)sig;
+    if (write(2, m1, sizeof(m1) - 1) < 0 || write(2, vh_cur_case, strlen(vh_cur_case)) < 0 ||
+        write(2, "\n", 1) < 0)
+        _exit(9);
+    _exit(9);
+}
+
 int main(int argc, char **argv)
 {
     FILE *f = argc > 1 ? fopen(argv[1], "r") : stdin;
     if (!f)
         VH_DIE("cannot open %s", argv[1]);
     int i;
+    signal(SIGALRM, vh_on_alarm);
     if (argc > 1 && strlen(argv[1]) < sizeof(g_stuck_marker) - 16) {
         char *slash;
         strcpy(g_stuck_marker, argv[1]);
@@ -1135,6 +1149,8 @@ int main(int argc, char **argv)
         diag_streams();
     char *line;
     while ((line = vh_getline(f)) != NULL) {
+        strncpy(vh_cur_case, line, sizeof(vh_cur_case) - 1);
+        alarm(getenv("VH_WATCHDOG") ? (unsigned)atoi(getenv("VH_WATCHDOG")) : 30);
         if (line[0] == 'W' && line[1] == 'L')
             do_wl(line);
         else if (line[0] == 'P' && line[1] == 'W')
